@@ -3,7 +3,7 @@ Implementation model of the memory commands of naken_util: core/UtilContext.cpp
 (`get_num`, `get_hex`, `get_token`, `get_address`, `get_range`, `print8/16/32`, `write8/16/32`,
 `disasm(token)`, `disasm(start, end)`), the copy loop and the `org` bookkeeping of `assemble_code` in
 main/naken_util.cpp, `read_bin` (fileio/read_bin.cpp, what `-bin -address` does) and the line splitting of the
-command loop of `main()`.  The code modelled is the tree WITH the `fix:` commits C19-1 … C19-8 and C17's
+command loop of `main()`.  The code modelled is the tree WITH the `fix:` commits C19-1 … C19-9 and C17's
 `get_hex` / `print16` / `print32` / `disasm` commits.
 
 Representation.
@@ -232,13 +232,13 @@ def writeLoop (w : Width) (m : Memory) (address : BitVec 32) (count : Nat) (toke
     else (m, count, false, true)
 termination_by token.length
 
-/-- the alignment tests: `(address & ((alignment - 1) & 1)) != 0` for 16 bit, `(address & (alignment - 1)) != 0`
-for 32 bit, none for 8 bit -/
+/-- the alignment tests: `(address & ((alignment - 1) & 1)) != 0` for 16 bit,
+`(address & ((alignment - 1) & 3)) != 0` for 32 bit (fix C19-9), none for 8 bit -/
 def misaligned (w : Width) (alignment address : BitVec 32) : Bool :=
   match w with
   | .w8 => false
   | .w16 => address &&& ((alignment - 1) &&& 1) ≠ 0
-  | .w32 => address &&& (alignment - 1) ≠ 0
+  | .w32 => address &&& ((alignment - 1) &&& 3) ≠ 0
 
 /-- `UtilContext::write8 / write16 / write32` -/
 def cmdWrite (w : Width) (cx : Ctx) (token : CStr) : Ctx × List Event :=
